@@ -86,6 +86,26 @@ Pad4(n) == IF n < 10 THEN "000" \o ToString(n) ELSE IF n < 100 THEN "00" \o ToSt
 Fmt4(a) == LET q == Round4(a)  m == Abs(q) IN
            (IF a[1] < 0 THEN "-" ELSE "") \o ToString(m \div 10000) \o "." \o Pad4(m % 10000)
 
+\* ---- the same rounding for magnitudes beyond 32 bits (|v| up to the largest float32, 3.4 * 10^38) ------------------------
+\* a magnitude is a sequence of base-10^8 limbs, least significant first, without leading zero limbs (<<>> is zero);
+\* a value is [s |-> sign, m |-> limbs of floor(|v| * 10^5), e |-> 1 if |v| * 10^5 is that integer exactly]
+BB == 100000000
+RECURSIVE BDiv10(_, _, _)                    \* <<quotient limbs 1..i, remainder>> of the number made of limbs 1..i with carry on top
+BDiv10(n, i, carry) == IF i = 0 THEN <<<<>>, carry>>
+                       ELSE LET cur == carry * BB + n[i]  rest == BDiv10(n, i - 1, cur % 10) IN <<Append(rest[1], cur \div 10), rest[2]>>
+RECURSIVE BTrim(_)
+BTrim(n) == IF n # <<>> /\ n[Len(n)] = 0 THEN BTrim(SubSeq(n, 1, Len(n) - 1)) ELSE n
+RECURSIVE BInc(_)
+BInc(n) == IF n = <<>> THEN <<1>> ELSE IF n[1] + 1 < BB THEN [n EXCEPT ![1] = @ + 1] ELSE <<0>> \o BInc(Tail(n))
+Round4Big(a) == LET dr == BDiv10(a.m, Len(a.m), 0)  q == BTrim(dr[1])  d == dr[2]
+                    odd == q # <<>> /\ q[1] % 2 = 1
+                    up == d > 5 \/ (d = 5 /\ (a.e = 0 \/ odd)) IN
+                [s |-> a.s, m |-> IF up THEN BInc(q) ELSE q]
+\* the limb arithmetic is the 32-bit arithmetic wherever both apply
+BigOf(k) == BTrim(<<k % BB, k \div BB>>)
+ASSUME \A k5 \in (0 .. 2100) \cup {99994, 99995, 99996, 999999994, 999999995, 999999996, 1999999995, 2000000005} : \A ex \in {0, 1} :
+          Round4Big([s |-> 1, m |-> BigOf(k5), e |-> ex]).m = BigOf(Round4(<<1, k5, ex>>))
+
 \* comment c = <<lead, body>> as the writer emits it: whitespace-only -> "#", otherwise "# " + lstrip
 WrittenComment(c) == IF c[2] = "" /\ c[1] > 0 THEN [k |-> "C", lead |-> 0, body |-> "", hdr |-> 0]
                      ELSE [k |-> "C", lead |-> 1, body |-> c[2], hdr |-> 0]
